@@ -495,3 +495,28 @@ Definition bracket_step (b : bst) (m : nmsg) : bst :=
   end.
 Definition bracket_run (oldest_first : list nmsg) : bst := fold_left bracket_step oldest_first BIdle.
 Definition bracket_of_log (l : list event) : bst := bracket_run (rev (notifs l)).
+
+(** * Witness schedules (macro level) replayed on the real library by checks/c15.py.
+    They are data; what they witness is proved in SchedProofs.v. *)
+Fixpoint rep {A} (n : nat) (x : A) : list A := match n with 0 => [] | S m => x :: rep m x end.
+
+(** the worker's exit window: the worker passes its last HasPendingTasks test and
+    parks at RIME_VERIF_RUN_RETURN; sync_user_data schedules three tasks, sees
+    IsWorking() and returns False; the worker ends; join; is_maintenance_mode = False
+    with three tasks never run. *)
+Definition witness_window_script : list call :=
+  [CSyncUser [true; true; true]; CSyncUser [true; true; true]; CJoin; CIsMaint].
+Definition witness_window_sched : list tid :=
+  rep 6 Client ++ rep 13 Worker ++ rep 4 Client ++ [Worker] ++ [Client; Client].
+(** same window through start_maintenance, which reports True although nothing was started *)
+Definition witness_window_sm_script : list call :=
+  [CStartMaint [true; true; true]; CStartMaint [true; true; true]; CJoin; CIsMaint].
+
+(** unlocked handler: Notify has tested the handler and holds Service::mutex_;
+    the client clears the handler without the mutex; Notify calls an empty function *)
+Definition witness_badcall_script : list call :=
+  [CSyncUser [true; true; true]; CSetHandler false; CJoin].
+Definition witness_badcall_sched : list tid :=
+  rep 6 Client ++ [Worker; Worker] ++ [Client] ++ [Worker] ++ [Client].
+(** the data race itself: worker at the unlocked test, client about to write *)
+Definition witness_race_sched : list tid := rep 6 Client ++ [Worker].
